@@ -84,6 +84,14 @@ CLAIMED["C01"] = dict(
          "custom TrustZone in CRC-manifest classes, re-export identity where the image type is ambiguous.",
     ref="DESIGN.md section 3 C01")
 
+CLAIMED["C02"] = dict(
+    technique="same symbolic executions as C01 (symx); oracle = independent model of the ROM acceptance checks over the "
+              "exported symbolic bytes (bit-exact CRC-32/MPEG-2 model, argument capture for signature/HMAC/digest, "
+              "format-only decryptor over the ideal-cipher stub) + z3 QF_BV",
+    note="Decides ranges, lengths and placements only. Out of the claim: that RSA/ECDSA signatures and certificate chains "
+         "verify (real cryptography), BCA/FCF/Vx classes, custom TrustZone in CRC-manifest classes.",
+    ref="DESIGN.md section 3 C02")
+
 NOT_APPLICABLE = {
     "C18": "quantifies over OS-level crash points of a pickle file and over process schedules around a FileLock; the "
            "deciding code is pickle (C) / the file system / the scheduler - no SPSDK arithmetic or layout to encode; "
